@@ -169,6 +169,34 @@ func corpus(tier string) ([]History, []string) {
 		Op{K: "cleanup"},
 		cr(1, []int{0}, plain(0, true)),
 		Op{K: "destroy", E: 1})
+	// seeded change C06-4: a KILL call that the master refuses for one task (first / middle / last of the
+	// request) must not change what happens to the others - destroy, failed creation, cleanup
+	add("kill-refused-destroy-first",
+		cr(0, []int{0}, plain(0, true), plain(0, false), plain(1, false), hookTask(1, false, 2, false)),
+		Op{K: "refuse", Ids: []int{tidOf(0, 0)}},
+		Op{K: "destroy", E: 0},
+		Op{K: "cleanup"},
+		cr(1, []int{2}, plain(2, true)),
+		Op{K: "destroy", E: 1})
+	add("kill-refused-destroy-middle-running",
+		cr(0, []int{2}, plain(2, true), plain(2, true), plain(3, false)),
+		Op{K: "control", E: 0, Ev: 2},
+		Op{K: "refuse", Ids: []int{tidOf(0, 1)}},
+		Op{K: "destroy", E: 0, Force: true},
+		Op{K: "kill", Ids: []int{tidOf(0, 0), tidOf(0, 1), tidOf(0, 2)}},
+		Op{K: "cleanup"})
+	add("kill-refused-failed-creation",
+		Op{K: "create", E: 0, Spec: &Spec{Hosts: []int{3}, Refuse: []int{0}, Roles: []Role{plain(3, false), plain(3, true), {Kind: KPlain, Host: 3, Crit: true, Launch: 1}, {Kind: KPlain, Host: 4, Launch: 2}}}},
+		Op{K: "cleanup"})
+	add("kill-refused-failed-configure-last",
+		Op{K: "create", E: 0, Spec: &Spec{Hosts: []int{0}, Refuse: []int{2}, Roles: []Role{plain(0, true), {Kind: KPlain, Host: 0, Crit: true, Cfg: true}, plain(1, false)}}},
+		Op{K: "cleanup"})
+	add("kill-refused-cleanup",
+		cr(0, []int{1}, plain(1, true), plain(1, false), plain(0, false)),
+		Op{K: "destroy", E: 0, Keep: true},
+		Op{K: "refuse", Ids: []int{tidOf(0, 1)}},
+		Op{K: "cleanup"},
+		Op{K: "cleanup"})
 	add("create-undeployable",
 		Op{K: "create", E: 0, Spec: &Spec{Hosts: []int{0}, Fail: 4, Roles: []Role{plain(0, true)}}},
 		cr(1, []int{0}, plain(0, true)))
@@ -305,6 +333,13 @@ func genSpec(r *gen.Rand, envs []*genEnv, allowSlow bool) *Spec {
 			s.Roles[i].Crit = false
 		}
 	}
+	if specFails(s) && s.Fail != 6 && r.Chance(1, 4) {
+		for i, ro := range s.Roles {
+			if ro.Kind == KPlain && ro.Launch == 0 && !ro.Cfg && r.Chance(1, 2) {
+				s.Refuse = append(s.Refuse, i)
+			}
+		}
+	}
 	return s
 }
 
@@ -322,6 +357,9 @@ func specFails(s *Spec) bool {
 
 func randomHistory(r *gen.Rand, allowSlow bool) (History, string) {
 	var h History
+	// a history has either executor / agent failures or refused KILL calls (a task whose executor failed is
+	// not ACTIVE for the core but still live at the simulated master)
+	refusing := r.Chance(1, 3)
 	envs := make([]*genEnv, 0, 4)
 	kind := "rand"
 	raced := false
@@ -446,6 +484,28 @@ func randomHistory(r *gen.Rand, allowSlow bool) (History, string) {
 				if r.Chance(1, 2) {
 					h.Ops = append(h.Ops, Op{K: "cleanup"})
 				}
+			}
+		case x < 98 && refusing:
+			// the master starts refusing the KILL calls for some running plain tasks
+			var cand []int
+			for e, ge := range envs {
+				if ge == nil || ge.pending || specFails(ge.spec) {
+					continue
+				}
+				for i, ro := range ge.spec.Roles {
+					if ro.Kind == KPlain && ro.Launch == 0 {
+						cand = append(cand, tidOf(e, i))
+					}
+				}
+			}
+			var ids []int
+			for _, t := range cand {
+				if r.Chance(1, 3) {
+					ids = append(ids, t)
+				}
+			}
+			if len(ids) > 0 {
+				h.Ops = append(h.Ops, Op{K: "refuse", Ids: ids})
 			}
 		case x < 98:
 			// the executor (1/4: the agent) of a non-critical task fails; the harness skips the
